@@ -179,6 +179,27 @@ def parse_cbmc_json(out):
     return results, '\n'.join(msgs), status
 
 
+def parse_stop_on_fail(out):
+    """cbmc --stop-on-fail --json-ui prints one failed property (with trace) instead of a result
+    list; returns an equivalent JSON text with a one-element result list, or None"""
+    try:
+        data = json.loads(out[out.index('['):out.rindex(']') + 1])
+    except (ValueError, json.JSONDecodeError):
+        return None
+    for item in data:
+        if item.get('status') == 'failed' and 'property' in item:
+            sl = {}
+            for st in reversed(item.get('trace', [])):
+                if st.get('stepType') == 'failure' and st.get('sourceLocation'):
+                    sl = st['sourceLocation']
+                    break
+            res = {'property': item['property'], 'description': item.get('description', ''), 'status': 'FAILURE',
+                   'trace': item.get('trace', []), 'sourceLocation': sl}
+            return json.dumps([{'messageText': 'fallback: --stop-on-fail after a timeout of the all-properties run',
+                                'messageType': 'STATUS-MESSAGE'}, {'result': [res]}, {'cProverStatus': 'failure'}])
+    return None
+
+
 def run_cbmc(bdir, gb, h, tier, log, extra=None):
     flags = list(BASE_CHECKS)
     for f in h.get('no_flags', []):
@@ -285,6 +306,9 @@ def run_harness(u, h, bdir, tier, unit_info):
             variants.append(('c', target))
         outs = {}
         for tag, can in variants:
+            if tag == 'c' and 'n' in outs and any(r.get('status') == 'FAILURE' for r in outs['n'][0]):
+                # the vacuity guard matters for passing runs only; obligations already fail
+                continue
             vtag = '%s_%s' % (name, tag)
             spec_gb = compile_spec(u, bdir, vtag, can, log)
             link = 'link_%s.gb' % vtag
@@ -310,7 +334,17 @@ def run_harness(u, h, bdir, tier, unit_info):
                 final = inst
             extra = None
             rc, out, dt, cmd = run_cbmc(bdir, final, h, tier, log, extra)
-            if rc == -999:
+            if rc == -999 and tag == 'n':
+                # all-properties mode can hang on the instances left after a first failing property was
+                # found; a single-counterexample run decides whether *some* obligation fails
+                rc2, out2, dt2, cmd2 = run_cbmc(bdir, final, dict(h, shards=None, timeout=min(h.get('timeout', 300), 300)),
+                                                'quick', log, ['--stop-on-fail'])
+                sf = parse_stop_on_fail(out2) if rc2 != -999 else None
+                if sf is None:
+                    raise Inconclusive('cbmc timeout (%s variant)' % tag)
+                out, dt, cmd = sf, dt2, cmd2
+                rc = 0
+            elif rc == -999:
                 raise Inconclusive('cbmc timeout (%s variant)' % tag)
             results, msgs, status = parse_cbmc_json(out)
             if results is None:
